@@ -6,6 +6,7 @@ package imports
 import (
 	"encoding/json"
 	"fmt"
+	"sort"
 	"strings"
 
 	"github.com/go-python/gpython/simrt"
@@ -362,4 +363,20 @@ func firstLine(s string) string {
 		s = s[:100]
 	}
 	return s
+}
+
+func (Engine) Text(sci interface{}) string {
+	sc := sci.(*Scenario)
+	var b strings.Builder
+	files := sc.Prog.Files()
+	var names []string
+	for k := range files {
+		names = append(names, k)
+	}
+	sort.Strings(names)
+	for _, k := range names {
+		b.WriteString("# ---- file " + k + "\n" + files[k])
+	}
+	b.WriteString("# ---- main program\n" + sc.Prog.RenderMain() + "# ---- follow-up program\n" + sc.Prog.RenderAfter())
+	return b.String()
 }
